@@ -89,9 +89,9 @@ class Readout:
         else:
             raise ValueError("Sampling times not specified.")
 
-        if self._times[0] == 0:
+        if np.any(self._times == 0):
             raise ValueError("Readout times should be non-zero values.")
-        elif start_time >= self._times[0]:
+        elif not start_time < self._times[0]:
             raise ValueError("Readout times should be greater than start time.")
 
         if not np.all(np.diff(self._times) > 0):
@@ -127,7 +127,7 @@ class Readout:
     @start_time.setter
     def start_time(self, value: float) -> None:
         """Set start time of the readout."""
-        if value >= self._times[0]:
+        if not value < self._times[0]:
             raise ValueError("Readout times should be greater than start time.")
         self._start_time = value
         self._set_steps()
@@ -156,10 +156,10 @@ class Readout:
         if values.size == 0:
             raise ValueError
 
-        if values[0] == 0:
+        if np.any(values == 0):
             raise ValueError("Readout times should be non-zero values.")
 
-        elif self._start_time >= values[0]:
+        elif not self._start_time < values[0]:
             raise ValueError("Readout times should be greater than start time.")
 
         self._times = values
